@@ -123,7 +123,7 @@ def run_histories(res, exe, drv, hists, stats, mism):
         return
     q, meta = [], []
     for h, run in zip(hists, runs):
-        snaps = H.simulate(h['ops'], h['trans'], generic=False) or []
+        snaps = H.simulate(h['ops'], h['trans'], generic=False, family='shared') or []
         script = H.hist_script(h['ops'], 0, h['pen'], h['trans'])
         if run['exc'] is not None or len(run['dumps']) != len(snaps):
             res.violation({'what': 'assertion / exception inside libavoid on a legal history (shared-endpoint stream)', 'exception': run['exc'],
@@ -140,9 +140,15 @@ def run_histories(res, exe, drv, hists, stats, mism):
                 route = d['disp'].get(c, [])
                 q.append(A.q_chk(polys, s, t, route))
                 q.append(A.q_plain(polys, s, t) if h['pen'] == 0 else A.q_taut(h['pen'], polys, s, t))
-                meta.append((h, k, ppos[k], c, s, t, polys, route, pts.count(s) > 1 or pts.count(t) > 1))
+                # classifier input of the known finding selective_reroute_not_flagged (see checks/c06.py): the route and the connector's ends are
+                # those of the previous dump and the selective-reroute test as coded flags none of the shapes that left their place in between
+                silent = None
+                if k >= 1 and len(route) >= 2 and snaps[k - 1][1].get(c) == (s, t) and \
+                        d.get('disp_raw', {}).get(c) == run['dumps'][k - 1].get('disp_raw', {}).get(c):
+                    silent = A.reroute_test_silent(h['ops'][ppos[k - 1] + 1:ppos[k]], h['trans'], snaps[k - 1][0], route)
+                meta.append((h, k, ppos[k], c, s, t, polys, route, pts.count(s) > 1 or pts.count(t) > 1, bool(silent)))
     ans = A.run_driver(drv, q)
-    for n, (h, k, upto, c, s, t, polys, route, coincident) in enumerate(meta):
+    for n, (h, k, upto, c, s, t, polys, route, coincident, silent) in enumerate(meta):
         chk, mod = ans[2 * n], A.parse_route_answer(ans[2 * n + 1])
         stats['routes'] += 1
         stats['shared_routes'] += 1
@@ -175,6 +181,14 @@ def run_histories(res, exe, drv, hists, stats, mism):
         mcost = mod[0] / A.PICO
         if bends > 0:
             stats['nontrivial'].add(hashlib.sha256(repr((h['cfg'], polys, s, t)).encode()).hexdigest())
+        if cost > mcost + TOL and silent:
+            stats['known_reroute_silent'] = stats.get('known_reroute_silent', 0) + 1
+            res.violation(dict(base, what='stale route: the connector kept its previous (valid) route although the current scene allows a cheaper one, and the '
+                                          'selective-reroute test as coded flags none of the shapes that left their place in this transaction',
+                               implementation_cost=cost, model_optimum=mcost, euclidean_length_kept=A.polyline_length(route),
+                               euclidean_length_of_model_route=A.polyline_length([(float(x), float(y)) for x, y in mod[1]])),
+                          fingerprint='selective_reroute_not_flagged')
+            continue
         if abs(cost - mcost) > TOL:
             stats['mismatch'] += 1
             mism.append(dict(base, what='cost of the implementation route after transaction %d differs from the model optimum of the current scene by '
@@ -231,7 +245,8 @@ def run(tier):
         'samples': samples, 'traces_validated_against_impl': stats['routes'],
         'routes_by_config': stats['by_config'], 'bends_histogram': {str(k): v for k, v in sorted(stats['bends_hist'].items())},
         'cost_mismatches': stats['mismatch'], 'no_path': stats['no_path'],
-        'shared_endpoint_stream': {'what': '2-4 polyline connectors most of which share an endpoint position exactly, dense scenes, then shape moves / adds / '
+        'known_selective_reroute_not_flagged_cases': stats.get('known_reroute_silent', 0),
+        'shared_endpoint_stream': {'what': '2-4 polyline connectors most of which share an endpoint position exactly (some endpoints exactly on shape vertices), dense scenes, then shape moves / adds / '
                                            'resizes / deletes and endpoint moves (also onto another connector\'s endpoint) over several transactions; cost vs '
                                            'model optimum after every processTransaction',
                                    'histories': stats['shared_histories'], 'routes_compared': stats['shared_routes'],
@@ -289,7 +304,8 @@ META = {
                 'vertex) as ANode; 2*penalty for a reversal); the floor-sqrt lengths obey the triangle inequality up to 1e-12 per segment '
                 '(admissible straight-line heuristic); the cpp2v-generated inValidRegion equals the spec decider used for pruning. Tie: on every '
                 'run the cost of the implementation\'s displayRoute equals the extracted model optimum to 1e-6 (penalties 0, 1, 10; buffer 0 and, '
-                'for rectangles, > 0) and the compiled validateBendPoint equals its spec decider on an exhaustive grid.',
+                'for rectangles, > 0) and the compiled validateBendPoint equals its spec decider on an exhaustive grid; a second stream routes several connectors with '
+                'exactly coincident endpoints and compares again after every later transaction that moves / adds / resizes / deletes shapes (incremental visibility).',
         'design_ref': 'DESIGN.md 5.4'},
     'level_note': 'partial: proof on the model. The certifying Dijkstra is proved total (cert_dijkstra_total: never Fail for in-range, non-negative, '
                   'non-parallel edges; route_plain_total / route_taut_total; SearchFail is still reported if it occurs); libavoid\'s A* and the rotational '
